@@ -18,7 +18,10 @@ def assumptions(variant):
             "wait by any other thread is rejected by the acceptor)",
             "code between two wrapped calls of one thread is atomic w.r.t. the protocol (it touches only data "
             "protected by the mutex held, or thread-local data)",
-            "fanout >= 1 (fanout 0 is C18's concern); pthread_create succeeds; every worker's command ends",
+            "fanout >= 1 (fanout 0 is C18's concern); every worker's command ends; when pthread_create fails pdsh "
+            "exits through errx (FanX.createFail: modelled and under the acceptor; that -k then reaches the running "
+            "commands is judged by the monitors only); getrlimit / setrlimit work (root: raising the soft limit to the "
+            "hard limit succeeds)",
             "wait-for-room construct of the checked tree, detected by behaviour: %s (C04 inflight_le_fanout is "
             "about `while`; `if` is covered by the witness theorem; the C03 theorems hold for both)" % variant]
 
@@ -130,6 +133,15 @@ def pinned_cases():
                         "seed": 9000 + len(out), "budget": 6000, "yield": "fan", "inline": 1,
                         "strategy": ["uniform", "starveD", "eagerD"][len(out) % 3],
                         "opts": {"labels": 1, "sopt": 0, "nofile": nofile}})
+    #     soft limit below the hard limit: the prologue raises it iff it does not exceed 2*fanout+32 (protocol
+    #     granularity without inline logging: these go through the environment LTS, Dsh/FanX.lean)
+    for hard, soft in ((64, 30), (40, 33), (64, 34), (64, 36), (64, 37), (200, 100), (35, 34)):
+        for f in (1, 2):
+            out.append({"fanout": f, "hosts": [{"name": "r%d" % i, "out": [[0, ("l%d\n" % i).encode().hex()]]}
+                                               for i in range(3)],
+                        "seed": 9000 + len(out), "budget": 6000, "yield": "fan", "inline": 0,
+                        "strategy": ["uniform", "starveD", "eagerD"][len(out) % 3],
+                        "opts": {"labels": 1, "sopt": 0, "nofile": hard, "nofile_soft": soft}})
     # (e) pthread_create fails once (EAGAIN) for the worker of target i, while others run or not: pdsh may give up
     #     (exit non-zero, as it does) or try again -- but it must not go on WITHOUT that target, nor hang
     for i in range(3):
@@ -138,7 +150,17 @@ def pinned_cases():
                                                for j in range(3)],
                         "seed": 9000 + len(out), "budget": 6000, "yield": "fan", "inline": 0,
                         "strategy": ["uniform", "starveD", "eagerD"][len(out) % 3],
-                        "opts": {"labels": 1, "sopt": 0, "createfail": i}, "createfail_case": True})
+                        "opts": {"labels": 1, "sopt": 0, "createfail": i, "k": (i + f) % 2},
+                        "createfail_case": True})
+    # (f) a transport that wants resolved addresses (like rsh; `resolve 1`): every target is looked up through the
+    #     harness's resolver (one static result buffer, like libc's) and the stub checks the address it is handed;
+    #     every mutex operation and the instant after an unlock are scheduling points
+    for f in (2, 3):
+        for sd in range(60):
+            out.append({"fanout": f, "hosts": [{"name": "a%d" % j} for j in range(3)],
+                        "seed": 9500 + 31 * sd + f, "budget": 40000, "yield": "all,misc", "inline": 0,
+                        "strategy": "uniform",
+                        "opts": {"labels": 1, "sopt": 0, "resolve": 1}, "resolve_case": True})
     for c in out:
         c["pinned"] = True
     return out
@@ -160,7 +182,7 @@ def replay_case(ctx, prop, exe, variant):
     if not isinstance(case, dict) or "hosts" not in case:
         ctx.log("replay: the file names no schedule; re-run the tier instead")
         return None
-    mem = "mem" in case.get("yield", "") or bool(case.get("createfail_case"))
+    mem = "mem" in case.get("yield", "")
     if "mem" in case.get("yield", "") and getattr(ctx, "exe_mem", None):
         exe = ctx.exe_mem                   # recorded at memory-access granularity
     res = sched.run_case(exe, case, ctx.scratch)
@@ -261,8 +283,7 @@ def explore_all(ctx, prop, exe_san, exe, variant, cov, dist):
         # two calls to the earlier call, which is exactly what those runs do not do
         batches = [sched.project_fan(r, variant, relay=sched.relay_capable(r["case"]))
                    if r["crash"] is None and not r["bug"] and
-                   "mem" not in r["case"].get("yield", "") and not r["case"].get("signals_case") and
-                   not r["case"].get("createfail_case") else None
+                   "mem" not in r["case"].get("yield", "") and not r["case"].get("signals_case") else None
                    for r in results]
         dist["through_composed_acceptor"] = dist.get("through_composed_acceptor", 0) + \
             sum(1 for b in batches if b is not None and b[0].startswith("initr"))
